@@ -4,7 +4,7 @@
    of_s = Some): that the real constructors invert the real SerializationString is checked on the
    implementation by the harness (strict comparison per kind), not here. *)
 From Coq Require Import ZArith NArith Bool List.
-From PcoreV Require Import Model.Base Model.Ser.
+From PcoreV Require Import Model.Base Model.Ser Model.SerAttrs.
 Import ListNotations.
 
 Definition ts : str -> str -> str := fun _ p => p.
@@ -124,4 +124,55 @@ Definition ser_check (c : case) : bool :=
   | ObsSerFault oevs => is_prefix oevs evs && is_fault (collect evs)
   end.
 
-Definition ser_mismatches (cs : list case) : list N := failing ser_check cs.
+
+(* ---- the attribute route (Model/SerAttrs.v) ----
+   One case per value that travels as an instance of its meta type: RequiredCount, ALL attributes (name, value
+   held, attribute.Default(value)), the declarations (name, declared default) and the attribute values of the
+   DESERIALIZED value as read through the same public API.  Checked: the hypotheses of C10_trim_fill (same names
+   in the same order, distinct names, a set default flag means the value equals the declared default) and that
+   fill applied to what the model's trim lets through is what the implementation rebuilt.
+   (That the implementation emits exactly the attributes trim keeps is part of ser_check: the harness writes the
+   value as VObjT, so the event streams are compared.) *)
+Inductive aobs :=
+| AObs (full : list (@pvalue str))   (* the attribute values of the deserialized value *)
+| AOther.                            (* the deserialized value is not of the attribute route *)
+
+Definition acase : Type := (nat * list (attr str) * list (decl str) * aobs)%type.
+
+Fixpoint forallb2 {A B} (f : A -> B -> bool) (x : list A) (y : list B) : bool :=
+  match x, y with
+  | [], [] => true
+  | a :: x', b :: y' => f a b && forallb2 f x' y'
+  | _, _ => false
+  end.
+
+Fixpoint nodupb (l : list str) : bool :=
+  match l with
+  | [] => true
+  | s :: l' => negb (existsb (str_eqb s) l') && nodupb l'
+  end.
+
+Definition isdef_soundb (a : attr str) (d : decl str) : bool :=
+  str_eqb (d_name d) (a_name a) &&
+  (negb (a_isdef a) ||
+   match d_default d with Some dv => pvalue_eqb dv (erase (a_val a)) | None => false end).
+
+Definition attrs_check (c : acase) : bool :=
+  let '(req, l, ds, ob) := c in
+  forallb2 isdef_soundb l ds &&
+  nodupb (map a_name l) &&
+  match ob with
+  | AObs full =>
+      match fill ds (pobj_attrs (erase (VObjT 0 VUndef req l []))) with
+      | Ok r => list_eqb pvalue_eqb r full && list_eqb pvalue_eqb (map (fun a => erase (a_val a)) l) full
+      | _ => false
+      end
+  | AOther => false
+  end.
+
+(* what the harness writes: the run and, when the value is of the attribute route and came back, its attributes *)
+Definition xcase : Type := (case * option acase)%type.
+
+Definition ser_mismatches (cs : list xcase) : list N := failing (fun c => ser_check (fst c)) cs.
+Definition attrs_mismatches (cs : list xcase) : list N :=
+  failing (fun c => match snd c with Some a => attrs_check a | None => true end) cs.
